@@ -440,17 +440,20 @@ theorem makeReq_substEntry (u : Up) (hu : WFup u = true) (e : Str × Str) :
 theorem substReq_name (u : Up) (r : Req) : (substReq u r).name = r.name := by
   unfold substReq; split <;> rfl
 
-theorem upsert_map (g : Req → Req) (hg : ∀ r, (g r).name = r.name) (rs : List Req) (r : Req) :
+theorem substReq_knownAs (u : Up) (r : Req) : (substReq u r).knownAs = r.knownAs := by
+  unfold substReq; split <;> rfl
+
+theorem upsert_map (g : Req → Req) (hg : ∀ r, (g r).name = r.name ∧ (g r).knownAs = r.knownAs) (rs : List Req) (r : Req) :
     upsert (rs.map g) (g r) = (upsert rs r).map g := by
   induction rs with
   | nil => simp [upsert]
   | cons x xs ih =>
-    simp only [List.map, upsert, hg]
+    simp only [List.map, upsert, (hg _).1, (hg _).2]
     split
     · simp
     · simp [ih]
 
-theorem addSec_map (g : Req → Req) (hg : ∀ r, (g r).name = r.name) (f : Str × Str → Str × Str)
+theorem addSec_map (g : Req → Req) (hg : ∀ r, (g r).name = r.name ∧ (g r).knownAs = r.knownAs) (f : Str × Str → Str × Str)
     (hf : ∀ e, makeReq (f e) = (makeReq e).map g) (s : Sec) (rs : List Req) :
     addSec (rs.map g) (s.map f) = (addSec rs s).map g := by
   induction s generalizing rs with
@@ -481,8 +484,8 @@ theorem requirements_applySpec (u : Up) (hu : WFup u = true) (d : Doc) :
   unfold requirements applySpec
   simp only
   rw [filterMap_map (substReq u) (substEntry u) (makeReq_substEntry u hu),
-    addSec_map (substReq u) (substReq_name u) (substEntry u) (makeReq_substEntry u hu),
-    addSec_map (substReq u) (substReq_name u) (substEntry u) (makeReq_substEntry u hu)]
+    addSec_map (substReq u) (fun r => ⟨substReq_name u r, substReq_knownAs u r⟩) (substEntry u) (makeReq_substEntry u hu),
+    addSec_map (substReq u) (fun r => ⟨substReq_name u r, substReq_knownAs u r⟩) (substEntry u) (makeReq_substEntry u hu)]
 
 theorem requirements_applyAll (us : List Up) (hu : ∀ u ∈ us, WFup u = true) (d : Doc) :
     requirements (applyAll d us) = substitute (requirements d) us := by
@@ -645,5 +648,79 @@ theorem apply1_applied (d d' : Doc) (u : Up) (h : apply1 d u = .ok d') (hk : key
             rcases secStep_applied _ _ u _ _ h3 hprod with ⟨a, b, _⟩ | ⟨c, _⟩
             · exact Or.inr (Or.inr ⟨a, b⟩)
             · cases c
+
+/-! ### Read loses no entry (fix 8304c0d6: the cascade keys a requirement by package and alias) -/
+
+def hasKey (rs : List Req) (n : Str) (ka : Option Str) : Bool := rs.any fun r => r.name = n && r.knownAs = ka
+
+theorem hasKey_upsert_self (rs : List Req) (q : Req) : hasKey (upsert rs q) q.name q.knownAs = true := by
+  induction rs with
+  | nil => simp [upsert, hasKey]
+  | cons x xs ih =>
+    unfold upsert
+    split
+    · simp [hasKey]
+    · simp only [hasKey, List.any_cons, Bool.or_eq_true] at ih ⊢
+      exact Or.inr ih
+
+theorem hasKey_upsert_keep (rs : List Req) (q : Req) (n : Str) (ka : Option Str) (h : hasKey rs n ka = true) :
+    hasKey (upsert rs q) n ka = true := by
+  induction rs with
+  | nil => simp [hasKey] at h
+  | cons x xs ih =>
+    simp only [hasKey, List.any_cons, Bool.or_eq_true, Bool.and_eq_true, decide_eq_true_eq] at h
+    unfold upsert
+    split
+    · rename_i hm
+      simp only [hasKey, List.any_cons, Bool.or_eq_true, Bool.and_eq_true, decide_eq_true_eq]
+      rcases h with ⟨h1, h2⟩ | h
+      · exact Or.inl ⟨by rw [← hm.1, h1], by rw [← hm.2, h2]⟩
+      · exact Or.inr (by simpa [hasKey] using h)
+    · simp only [hasKey, List.any_cons, Bool.or_eq_true, Bool.and_eq_true, decide_eq_true_eq]
+      rcases h with h | h
+      · exact Or.inl h
+      · exact Or.inr (by simpa [hasKey] using ih (by simpa [hasKey] using h))
+
+theorem hasKey_addSec_keep (s : Sec) (rs : List Req) (n : Str) (ka : Option Str) (h : hasKey rs n ka = true) :
+    hasKey (addSec rs s) n ka = true := by
+  induction s generalizing rs with
+  | nil => simpa [addSec] using h
+  | cons e es ih =>
+    simp only [addSec, List.foldl] at ih ⊢
+    cases hm : makeReq e with
+    | none => exact ih rs h
+    | some q => exact ih _ (hasKey_upsert_keep rs q n ka h)
+
+theorem hasKey_addSec_mem (s : Sec) (rs : List Req) (e : Str × Str) (q : Req) (he : e ∈ s) (hq : makeReq e = some q) :
+    hasKey (addSec rs s) q.name q.knownAs = true := by
+  induction s generalizing rs with
+  | nil => cases he
+  | cons x xs ih =>
+    simp only [addSec, List.foldl] at ih ⊢
+    simp only [List.mem_cons] at he
+    rcases he with rfl | he
+    · rw [hq]
+      exact hasKey_addSec_keep xs _ _ _ (hasKey_upsert_self rs q)
+    · cases hm : makeReq x with
+      | none => exact ih rs he
+      | some y => exact ih _ he
+
+theorem readComplete_requirements (d : Doc) : readComplete d (requirements d) = true := by
+  unfold readComplete
+  rw [List.all_eq_true]
+  intro e he
+  cases hq : makeReq e with
+  | none => rfl
+  | some q =>
+    show hasKey (requirements d) q.name q.knownAs = true
+    unfold requirements
+    simp only [List.mem_append] at he
+    rcases he with (he | he) | he
+    · exact hasKey_addSec_mem d.dev _ e q he hq
+    · exact hasKey_addSec_keep d.dev _ _ _ (hasKey_addSec_mem d.opt _ e q he hq)
+    · apply hasKey_addSec_keep d.dev
+      apply hasKey_addSec_keep d.opt
+      simp only [hasKey, List.any_eq_true, Bool.and_eq_true, decide_eq_true_eq]
+      exact ⟨q, List.mem_filterMap.mpr ⟨e, he, hq⟩, rfl, rfl⟩
 
 end Scalibr.Npm
